@@ -23,13 +23,17 @@ CHECKS = {
         "rule": "an evaluation = one oracle judgement (one directional-derivative comparison, one value-only comparison, one "
                 "ordered pair in the convexity inequality, one non-negativity / decision-rule / batch-vs-alone comparison); "
                 "non-trivial = the judgement was actually demanded: the point is differentiable along the direction and both "
-                "steps resolve the derivative (kinks, unresolved and non-finite neighbourhoods are skipped and counted as "
-                "outcomes), the object declares convexity, the arg-max is unique",
+                "steps resolve the derivative (kinks = a jump of the one-sided derivatives extrapolated from the second "
+                "differences at the two steps, unresolved and non-finite neighbourhoods are skipped, counted as outcomes and "
+                "written to the shard log), the object declares convexity, the arg-max is unique",
         "assumptions": ["derivatives are demanded only at points of differentiability recognised by the two-step second "
                         "difference; sub-gradients at kinks are judged by the convexity inequality only",
                         "symmetric P in quadratic constraints; s-classnll targets have a positive class; arg-max ties are "
                         "excluded from the decision-rule comparison",
-                        "ML objectives run single-threaded (thread/batch independence is C09)"],
+                        "ML objectives run single-threaded (thread/batch independence is C09)",
+                        "linear::function_t with l2 > 0 is additionally checked restricted to the weights (bias fixed), where "
+                        "its declared strong-convexity coefficient can hold; on the full vector it is the recorded finding "
+                        "strong-convexity:linear/l2>0"],
         "deadline": {"quick": 240, "thorough": 900},
         "stages": [
             {"name": "functions", "harness": "c06_truthful", "args": ["--stage", "functions"], "share": 0.4,
